@@ -94,19 +94,24 @@ else:
         # For etree > 1.3, use register_namespace function
         etree.register_namespace('', COLLADA_NS)
 
+    def _blank(text):
+        # white space in the XML sense only: str.strip() would also take
+        # characters such as the no-break space, which are content
+        return not text or not text.strip(' \t\r\n')
+
     def indent(elem, level=0):
         i = "\n" + level * "  "
         if len(elem):
-            if not elem.text or not elem.text.strip():
+            if _blank(elem.text):
                 elem.text = i + "  "
-            if not elem.tail or not elem.tail.strip():
+            if _blank(elem.tail):
                 elem.tail = i
             for elem in elem:
                 indent(elem, level + 1)
-            if not elem.tail or not elem.tail.strip():
+            if _blank(elem.tail):
                 elem.tail = i
         else:
-            if level and (not elem.tail or not elem.tail.strip()):
+            if level and _blank(elem.tail):
                 elem.tail = i
 
     def writeXML(xmlnode, fp):
